@@ -11,7 +11,7 @@ import (
 )
 
 func init() {
-	props["C13"] = &propDef{run: runC13, explanation: "Partial ('only if' direction). Decided statically on the patch validators: (K1) the numeric limits and the id pattern — len(id) > 50 rejects, len(service type) > 30 rejects, purposes longer than the 5-entry purpose table reject, ids must match the regexp literal ^[A-Za-z0-9_-]+$ compiled once; (T1) the key-type × purpose matrix extracted from the four package-level literals equals the documented matrix and the purpose table holds the five document.KeyPurpose* constants; (T2) the member-name sets of a key (required, optional, one-of) and of a replace document; (U1) every for-all loop in the validator packages rejects only inside its body (an accepting return inside such a loop validates only a prefix); (G1) per action, success lies behind each documented check for every element (for-all form through helper boundaries): array presence, id rules, duplicate ids, member rule, purposes rule, type/purpose rule, JWK rule, service id/type/endpoint rules with URI validity for a string endpoint and for every string entry of a list endpoint, also-known-as URI parse and uniqueness, replace member set, original-document id/context refusal. Not decided: the 'if' direction; what net/url accepts; JWK well-formedness beyond the presence checks. (U2) every seen-set is searched with the key expression it is filled with."}
+	props["C13"] = &propDef{run: runC13, explanation: "Partial ('only if' direction). Decided statically on the patch validators: (K1) the numeric limits and the id pattern — len(id) > 50 rejects, len(service type) > 30 rejects, purposes longer than the 5-entry purpose table reject, ids must match the regexp literal ^[A-Za-z0-9_-]+$ compiled once; (T1) the key-type × purpose matrix extracted from the four package-level literals equals the documented matrix and the purpose table holds the five document.KeyPurpose* constants; (T2) the member-name sets of a key (required, optional, one-of) and of a replace document; (U1) every for-all loop in the validator packages rejects only inside its body (an accepting return inside such a loop validates only a prefix); (G1) per action, success lies behind each documented check for every element (for-all form through helper boundaries): array presence, id rules, duplicate ids, member rule, purposes rule, type/purpose rule, JWK rule, service id/type/endpoint rules with URI validity for a string endpoint and for every string entry of a list endpoint, also-known-as URI parse and uniqueness, replace member set, original-document id/context refusal. Not decided: the 'if' direction; what net/url accepts; JWK well-formedness beyond the presence checks. (U2) every seen-set is searched with the key expression it is filled with. Presence of a key member is tested by comma-ok lookups only; in JWK.Validate each member is demanded only of the key type it belongs to."}
 }
 
 func constStringsOfAlloc(c *Ctx, a *ssa.Alloc) []string {
